@@ -5,6 +5,8 @@ Trace property over the global history: assignments (begin/end), filter calls an
 """
 
 import asyncio
+import collections
+import collections.abc
 import copy
 
 from .. import core, harness, vloop
@@ -37,7 +39,8 @@ NAN = float('nan')
 NOINIT = object()
 VALUES = [0, 1, True, False, 1.0, None, '', (1,), (1.0,), [1], 'a', NAN, 2, -1]
 NUMERIC = [0, 1, True, False, 1.0, 2, -1, 3, 2.0]
-FKINDS = ['pass', 'reject_odd', 'edit_new', 'edit_inplace', 'pass', 'edit_empty', 'edit_clear', 'edit_strip', 'negate']
+FKINDS = ['pass', 'reject_odd', 'edit_new', 'edit_inplace', 'pass', 'edit_empty', 'edit_clear', 'edit_strip', 'negate',
+          'edit_userdict', 'edit_chainmap']
 FORMS = ['list', 'tuple', 'single', 'list']
 
 
@@ -78,6 +81,11 @@ def apply_filter(kind, n, data, counter):
         return {k: v for k, v in data.items() if k == 'value'}
     if kind == 'negate':
         return {**data, 'value': not data.get('value')}
+    if kind == 'edit_userdict':
+        # any MutableMapping returned by a filter is the new event data, not only a dict
+        return collections.UserDict({**data, f"u{n}": 'ud'})
+    if kind == 'edit_chainmap':
+        return collections.ChainMap({f"c{n}": 'cm'}, dict(data))
     raise AssertionError(kind)
 
 
@@ -352,7 +360,7 @@ def oracle(case, out, ctx):
                 alive = True
                 for fi, kindf in enumerate(spec['filters']):
                     ret = apply_filter(kindf, fi, data, counters.setdefault((tag, ei), {}))
-                    if isinstance(ret, dict):
+                    if isinstance(ret, collections.abc.MutableMapping):
                         data = ret
                     elif not ret:
                         alive = False
